@@ -96,6 +96,18 @@ def run(ctx):
         missing = [w for w in want if w not in gs["FIELDS"][0]]
         ctx.ob("C19.R3", "GameStateHolder|state-keys", not missing, "" if not missing else "GameStateHolder does not accept the keys %s" % missing,
                "%s:%d" % (gs["file"], gs["line"]), sample={"accepted": gs["FIELDS"][0]})
+    ctx.rule("C19.R4", "every enumerated key set (status, variant, speed, source, challenge enums ...) equals the documented wire keys", floor=10)
+    for ty, want in sorted(spec.get("enums", {}).items()):
+        e = sc.get(ty)
+        if e is None or e["VARIANTS"] is None:
+            ctx.lost("C19.R4", "VARIANTS constant of <%s as Deserialize> (type renamed or no longer an enum)" % ty)
+            continue
+        got = e["VARIANTS"]
+        ok = sorted(got) == sorted(want)
+        ctx.ob("C19.R4", "%s|keys" % ty, ok,
+               "" if ok else "%s accepts %s on the wire; the API sends %s - a message carrying one of these keys no longer decodes (a Rust variant was renamed, added or removed without a matching serde rename)"
+               % (ty, sorted(set(got) - set(want)) or "nothing new", sorted(set(want) - set(got)) or "nothing else"),
+               "%s:%d" % (e["file"], e["line"]), sample={"type": ty, "keys": got} if ty == "GameStatusKey" else None)
     ctx.extra["deserialize_types"] = sorted(sc)
     ctx.assumptions += ["serde_derive emits the accepted names as the FIELDS / VARIANTS constants of the generated deserialize function (serde 1.x behaviour)",
                         "flattened variants (gameState) have no FIELDS constant; their keys are those of the flattened struct"]
